@@ -297,7 +297,20 @@ func (p *Program) pkgOf(fn *ssa.Function) *packages.Package {
 func staticCallee(c ssa.CallInstruction) *ssa.Function {
 	cc := c.Common()
 	if f := cc.StaticCallee(); f != nil {
+		// a call of a generic function goes through a synthetic instantiation (wrapper): the code that
+		// runs is the generic function's own body, with the same parameters in the same positions
+		if o := f.Origin(); o != nil && o != f && len(o.Blocks) > 0 {
+			return o
+		}
 		return f
+	}
+	return nil
+}
+
+// typeArgsOfCall: the type arguments of a call to an instantiated generic function.
+func typeArgsOfCall(c ssa.CallInstruction) []types.Type {
+	if f := c.Common().StaticCallee(); f != nil {
+		return f.TypeArgs()
 	}
 	return nil
 }
@@ -379,4 +392,36 @@ func typeName(t types.Type) string {
 		pp = pp[i+1:]
 	}
 	return pp + "." + n.Obj().Name()
+}
+
+// dynamicCallees: module functions the VTA call graph gives as possible callees of the (dynamic)
+// call c in fn.
+func (p *Program) dynamicCallees(fn *ssa.Function, c ssa.CallInstruction) map[*ssa.Function]bool {
+	out := map[*ssa.Function]bool{}
+	n := p.CallGraph().Nodes[fn]
+	if n == nil {
+		return out
+	}
+	for _, e := range n.Out {
+		if e.Site != c || e.Callee == nil || e.Callee.Func == nil {
+			continue
+		}
+		f := e.Callee.Func
+		// a method expression or bound method value is a synthetic thunk around the method
+		for d := 0; d < 3 && f != nil && f.Synthetic != "" && !p.inModule(f); d++ {
+			var inner *ssa.Function
+			allInstrs(f, func(in ssa.Instruction) {
+				if ci, ok := in.(ssa.CallInstruction); ok {
+					if g := ci.Common().StaticCallee(); g != nil {
+						inner = g
+					}
+				}
+			})
+			f = inner
+		}
+		if f != nil && p.inModule(f) {
+			out[f] = true
+		}
+	}
+	return out
 }
